@@ -7,6 +7,7 @@ and generating responses, including Titan upload handlers.
 from abc import ABC, abstractmethod
 from pathlib import Path
 from typing import TYPE_CHECKING
+from urllib.parse import unquote
 
 from ..content.gemtext import generate_directory_listing
 from ..protocol.constants import (
@@ -96,8 +97,9 @@ class StaticFileHandler(RequestHandler):
         Returns:
             A GeminiResponse with the file contents or an error.
         """
-        # Get the requested path (remove leading slash)
-        requested_path = request.path.lstrip("/")
+        # Get the requested path: decode percent-escapes (RFC 3986, so that
+        # "a%20b.gmi" names the file "a b.gmi") and remove the leading slash
+        requested_path = unquote(request.path).lstrip("/")
 
         # Construct the full file path
         file_path = (self.document_root / requested_path).resolve()
@@ -371,7 +373,7 @@ class FileUploadHandler(UploadHandler):
             return await self._handle_delete(request.path)
 
         # 5. Validate path (path traversal protection)
-        target = (self.upload_dir / request.path.lstrip("/")).resolve()
+        target = (self.upload_dir / unquote(request.path).lstrip("/")).resolve()
         if not self._is_safe_path(target):
             return GeminiResponse(
                 status=StatusCode.BAD_REQUEST.value,
@@ -414,7 +416,7 @@ class FileUploadHandler(UploadHandler):
                 meta="Delete operations are disabled",
             )
 
-        target = (self.upload_dir / path.lstrip("/")).resolve()
+        target = (self.upload_dir / unquote(path).lstrip("/")).resolve()
 
         if not self._is_safe_path(target):
             return GeminiResponse(
